@@ -49,6 +49,8 @@ var Templates = []string{
 	// contentious evidence: validators 0 and 1 report one thing, validator 2 another, validator 3 nothing (together 75 % of
 	// the power, no proof with 2/3); evidence from a validator that is not in the snapshot
 	"attestsplit3", "txsplit", "refsplit", "balsplit", "newval", "newvalalive", "attestnew",
+	// the relayed transaction really matches the queued message (relayok publishes its hash); attestok: every validator proves it
+	"attestok",
 	// skyway
 	"send", "cancel", "batchest", "confirm", "batchclaim", "deposit", "lightsale", "claims2",
 	// tokenfactory
@@ -253,9 +255,35 @@ func (c *chain) tpl(name string) [][]byte {
 						if s, err := e.App.ValsetKeeper.GetCurrentSnapshot(ctx); err == nil && s != nil {
 							snapID = s.Id
 						}
-						out = append(out, &consensustypes.MsgSetPublicAccessData{Metadata: metaOf(a), MessageID: m.GetId(), QueueTypeName: q,
-							Data: crypto.Keccak256([]byte(fmt.Sprintf("tx-%s-%d", q, m.GetId()))), ValsetID: snapID})
+						// the hash of the transaction the relayer sent: the compass call that matches the queued message
+						hash := crypto.Keccak256([]byte(fmt.Sprintf("tx-%s-%d", q, m.GetId())))
+						if tx, err := c.matchingTx(m, ch, snapID); err == nil {
+							hash = tx.Hash().Bytes()
+						}
+						out = append(out, &consensustypes.MsgSetPublicAccessData{Metadata: metaOf(a), MessageID: m.GetId(), QueueTypeName: q, Data: hash, ValsetID: snapID})
 					}
+				}
+			}
+			return out
+		})
+	case "attestok":
+		perVal(func(v int, a *env.Account) []sdk.Msg {
+			var out []sdk.Msg
+			for _, ch := range chains {
+				q := turnstoneQueue(ch)
+				ms, _ := ck.GetMessagesForAttesting(ctx, q, c.val(v).ValAddr)
+				for _, m := range ms {
+					pad := m.GetPublicAccessData()
+					if pad == nil {
+						continue
+					}
+					tx, err := c.matchingTx(m, ch, pad.GetValsetID())
+					if err != nil {
+						continue
+					}
+					p, err := codectypes.NewAnyWithValue(okProof(tx, receiptBytes(c.evmMsg(m), "ok")))
+					must(err)
+					out = append(out, &consensustypes.MsgAddEvidence{Metadata: metaOf(a), MessageID: m.GetId(), QueueTypeName: q, Proof: p})
 				}
 			}
 			return out
@@ -549,4 +577,119 @@ func txProof(c *chain, nonce uint64) *evmtypes.TxExecutedProof {
 	rc, err := (&ethtypes.Receipt{Status: ethtypes.ReceiptStatusSuccessful, CumulativeGasUsed: 21000, Logs: []*ethtypes.Log{}, TxHash: tx.Hash(), GasUsed: 21000}).MarshalBinary()
 	must(err)
 	return &evmtypes.TxExecutedProof{SerializedTX: raw, SerializedReceipt: rc}
+}
+
+// matchingTx builds the remote transaction a relayer sends for a queued turnstone message: the compass call packed with the
+// ABI that ships with the repository, the valset of the given snapshot and all signatures collected so far, signed by the
+// external key of the assigned validator.
+func (c *chain) matchingTx(m consensustypes.QueuedSignedMessageI, ch string, valsetID uint64) (*ethtypes.Transaction, error) {
+	em := c.evmMsg(m)
+	if em == nil {
+		return nil, fmt.Errorf("not a turnstone message")
+	}
+	sigs := m.GetSignData()
+	if len(sigs) == 0 {
+		return nil, fmt.Errorf("no signatures yet")
+	}
+	resp, err := c.e.App.EvmKeeper.GetValsetByID(c.ctx(), &evmtypes.QueryGetValsetByIDRequest{ValsetID: valsetID, ChainReferenceID: ch})
+	if err != nil {
+		return nil, err
+	}
+	cons := evmtypes.BuildCompassConsensus(resp.Valset, sigs)
+	relayer := gethcommon.HexToAddress(em.AssigneeRemoteAddress)
+	id := new(big.Int).SetUint64(m.GetId())
+	pad32 := func(b []byte) (out [32]byte) {
+		if len(b) <= 32 {
+			copy(out[32-len(b):], b)
+		}
+		return out
+	}
+	fee := func(f *evmtypes.Fees, payer []byte) evmtypes.FeeArgs {
+		if f == nil {
+			f = &evmtypes.Fees{}
+		}
+		return evmtypes.FeeArgs{RelayerFee: new(big.Int).SetUint64(f.RelayerFee), CommunityFee: new(big.Int).SetUint64(f.CommunityFee),
+			SecurityFee: new(big.Int).SetUint64(f.SecurityFee), FeePayerPalomaAddress: pad32(payer)}
+	}
+	var data []byte
+	switch a := em.Action.(type) {
+	case *evmtypes.Message_SubmitLogicCall:
+		x := a.SubmitLogicCall
+		data, err = compassABI.Pack("submit_logic_call", cons, evmtypes.CompassLogicCallArgs{LogicContractAddress: gethcommon.HexToAddress(x.GetHexContractAddress()), Payload: x.GetPayload()},
+			fee(x.Fees, x.SenderAddress), id, big.NewInt(x.GetDeadline()), relayer)
+	case *evmtypes.Message_UploadUserSmartContract:
+		x := a.UploadUserSmartContract
+		data, err = compassABI.Pack("deploy_contract", cons, gethcommon.HexToAddress(x.GetDeployerAddress()), x.GetBytecode(), fee(x.Fees, x.SenderAddress), id, big.NewInt(x.GetDeadline()), relayer)
+	case *evmtypes.Message_UpdateValset:
+		data, err = compassABI.Pack("update_valset", cons, evmtypes.TransformValsetToCompassValset(a.UpdateValset.Valset), relayer, new(big.Int).SetUint64(m.GetGasEstimate()))
+	default:
+		return nil, fmt.Errorf("no relay transaction for %T", em.Action)
+	}
+	if err != nil {
+		return nil, err
+	}
+	v := c.valIdx(em.Assignee)
+	if v < 0 {
+		v = 0
+	}
+	chainID := big.NewInt(100)
+	if ch == chainB {
+		chainID = big.NewInt(101)
+	}
+	to := gethcommon.HexToAddress(compassAddr(ch))
+	return ethtypes.SignTx(ethtypes.NewTx(&ethtypes.DynamicFeeTx{ChainID: chainID, Nonce: m.GetId(), GasTipCap: big.NewInt(1), GasFeeCap: big.NewInt(1_000_000_000), Gas: 3_000_000, To: &to, Value: big.NewInt(0), Data: data}),
+		ethtypes.LatestSignerForChainID(chainID), c.w.ethKey[v])
+}
+
+func okProof(tx *ethtypes.Transaction, receipt []byte) *evmtypes.TxExecutedProof {
+	raw, err := tx.MarshalBinary()
+	must(err)
+	return &evmtypes.TxExecutedProof{SerializedTX: raw, SerializedReceipt: receipt}
+}
+
+// receiptBytes serialises the receipt of a relayed transaction. shape "ok" is what the remote chain produces for the kind of
+// message (a user contract deployment carries compass' ContractDeployed event); the other shapes are the hostile classes of
+// the catalogue tag "receipt".
+func receiptBytes(em *evmtypes.Message, shape string) []byte {
+	deployed := &ethtypes.Log{Address: gethcommon.HexToAddress(compassAddr(chainA)), Topics: []gethcommon.Hash{contractDeployedSig}, Data: deployedEventData}
+	foreign := &ethtypes.Log{Address: gethcommon.HexToAddress("0x00000000000000000000000000000000000a11ce"), Topics: []gethcommon.Hash{crypto.Keccak256Hash([]byte("Hello(uint256)"))}, Data: []byte{1, 2, 3}}
+	isDeploy := false
+	if em != nil {
+		_, isDeploy = em.Action.(*evmtypes.Message_UploadUserSmartContract)
+	}
+	r := &ethtypes.Receipt{Status: ethtypes.ReceiptStatusSuccessful, CumulativeGasUsed: 21000, GasUsed: 21000, Logs: []*ethtypes.Log{}}
+	if isDeploy {
+		r.Logs = []*ethtypes.Log{deployed}
+	}
+	switch shape {
+	case "ok":
+	case "empty":
+		return []byte{}
+	case "malformed":
+		return []byte{0xff, 0x00, 0xfe, 0x7b, 0x22, 0x00}
+	case "failed":
+		r.Status = ethtypes.ReceiptStatusFailed
+	case "nologs":
+		r.Logs = []*ethtypes.Log{}
+	case "notopics":
+		// an anonymous event (LOG0) of the called / deployed contract before compass' own event
+		r.Logs = []*ethtypes.Log{{Address: foreign.Address, Topics: nil, Data: []byte("hello from the constructor")}, deployed}
+	case "foreignfirst":
+		r.Logs = []*ethtypes.Log{foreign, foreign, deployed}
+	case "manylogs":
+		r.Logs = nil
+		for i := 0; i < 3000; i++ {
+			r.Logs = append(r.Logs, foreign)
+		}
+		r.Logs = append(r.Logs, deployed)
+	case "baddata":
+		r.Logs = []*ethtypes.Log{{Address: deployed.Address, Topics: deployed.Topics, Data: []byte{0x01, 0x02}}}
+	case "manytopics":
+		r.Logs = []*ethtypes.Log{{Address: deployed.Address, Topics: []gethcommon.Hash{contractDeployedSig, contractDeployedSig, contractDeployedSig, contractDeployedSig}, Data: deployedEventData}}
+	default:
+		panic("unknown receipt shape " + shape)
+	}
+	bz, err := r.MarshalBinary()
+	must(err)
+	return bz
 }
